@@ -218,7 +218,47 @@ class BoolExpr:
         sig["near_contact_1e-5"] = bool(d2 is not None and d2 < F(1, 10**10))
         sig["boundaries_transversal"] = bool(R.x_transversal(pa, pb))
         sig["_min_nonzero_vertex_to_other_boundary_dist2"] = str(d2)
+        if self.expr[0] == "^" and exc is None:
+            # A ^ B is computed as (A - B) | (B - A); the two differences always touch at the crossing points. Does the
+            # library then take one difference to be *contained* in the other although it is not (the curve-in-shape
+            # test only looks at vertices and at mid-points between proper crossings)?
+            try:
+                env = self.operands(xs)
+                X = env["A"] - env["B"]
+                env = self.operands(xs)
+                Y = env["B"] - env["A"]
+                wrong = False
+                for P, Q in ((X, Y), (Y, X)):
+                    rq = geom.concrete_region(geom.region_of_shape(Q))
+                    rp = geom.concrete_region(geom.region_of_shape(P))
+                    says = bool(Q in P)
+                    for vs in R.polys_of(rq):
+                        c = (sum(v[0] for v in vs) / len(vs), sum(v[1] for v in vs) / len(vs))
+                        if says and R.x_in(rq, c) and not R.x_in(rp, c) and R.x_dist2_boundary(c, R.polys_of(rp)) != 0:
+                            wrong = True
+                sig["xor_difference_wrongly_contained_in_the_other"] = wrong
+            except Exception:
+                sig["xor_difference_wrongly_contained_in_the_other"] = None
         return sig
+
+
+def _share_segment(pa, pb):
+    """two polygon families have a pair of collinear edges overlapping in more than a point"""
+    for va in pa:
+        for vb in pb:
+            for i in range(len(va)):
+                a, b = va[i], va[(i + 1) % len(va)]
+                for j in range(len(vb)):
+                    c, d = vb[j], vb[(j + 1) % len(vb)]
+                    o = lambda p, q, r: (q[0] - p[0]) * (r[1] - p[1]) - (q[1] - p[1]) * (r[0] - p[0])
+                    if o(a, b, c) == 0 and o(a, b, d) == 0:
+                        # projections on the dominant axis overlap in an interval of positive length
+                        k = 0 if a[0] != b[0] else 1
+                        lo = max(min(a[k], b[k]), min(c[k], d[k]))
+                        hi = min(max(a[k], b[k]), max(c[k], d[k]))
+                        if lo < hi:
+                            return True
+    return False
 
 
 def near_contact_d2(pa, pb):
